@@ -44,9 +44,9 @@ from harness.record import Recording
 
 SYNTHETIC = {"type_variety": "verif_vg", "type_def": "variable_gain", "gain_flatmax": 22, "gain_min": 12, "p_max": 19,
              "nf_min": 6.5, "nf_max": 11, "out_voa_auto": False, "allowed_for_design": False}
-F0_IN = 191.35e12          # first in-band channel of the default amplifier band [191.275, 196.125] THz
-OOB = [190.0e12, 197.0e12]  # channels far outside every C-band amplifier of the library
-BAND = (191.275e12, 196.125e12)     # band of the instantiated amplifiers (asserted in check_library_matches)
+ADV_BAND = {"type_variety": "verif_adv_band", "type_def": "advanced_model", "gain_flatmax": 25, "gain_min": 15, "p_max": 21,
+            "advanced_config_from_json": "std_medium_gain_advanced_config.json", "f_min": 192.0e12, "f_max": 195.0e12,
+            "out_voa_auto": False, "allowed_for_design": False}
 
 
 def cfg_text(maxcross, emit=False, pins='MCPinTots'):
@@ -67,6 +67,7 @@ def library_json():
     if _LIB is None:
         _LIB = json.loads((EX / 'eqpt_config.json').read_text())
         _LIB['Edfa'].append(dict(SYNTHETIC))
+        _LIB['Edfa'].append(dict(ADV_BAND))
     return _LIB
 
 
@@ -93,25 +94,31 @@ def check_library_matches(amp):
     if _EQ is None:
         _EQ = _equipment_from_json(copy.deepcopy(library_json()), DEFAULT_EXTRA_CONFIG)
     e = _EQ['Edfa'][amp['id']]
-    got = (e.type_def, udb(e.gain_min), udb(e.gain_flatmax), udb(e.p_max), e.bands[0]['f_min'], e.bands[0]['f_max'])
-    exp = (amp['typeDef'], amp['gainMin'], amp['flatMax'], amp['pMax'], BAND[0], BAND[1])
+    # (the band is NOT asserted here: the cases place the channels by the band the library entry states, and a loader that
+    # gives the amplifier another band shows up as a violation of the out-of-band clause)
+    got = (e.type_def, udb(e.gain_min), udb(e.gain_flatmax), udb(e.p_max))
+    exp = (amp['typeDef'], amp['gainMin'], amp['flatMax'], amp['pMax'])
+    stated = next(x for x in library_json()['Edfa'] if x['type_variety'] == amp['id'])
+    if 'f_min' in stated and (L.mhz(stated['f_min']), L.mhz(stated['f_max'])) != (amp['fmin'], amp['fmax']):
+        raise Machinery(f'MC_AmpLaw band of {amp["id"]} differs from the band its library entry states')
     if got != exp:
         raise Machinery(f'MC_AmpLaw constants for {amp["id"]} {exp} differ from the library {got}')
 
 
-def load_si(pin_raw_udb, var, grid=0):
+def load_si(pin_raw_udb, var, grid=0, band=(191.275e12, 196.125e12)):
     """a spectral information whose in-band channels total pin_raw (N equal channels, or a +/-2 dB ramp with the same
-    total), plus var.nOut channels outside the amplifier band; grid: which of the frequency grids (same channel
-    count, shifted by half the channel spacing) carries the load"""
+    total), plus var.nOut channels outside the amplifier band (the band the library entry STATES); grid: which of the
+    frequency grids (same channel count, shifted by half the channel spacing) carries the load"""
     from gnpy.core.info import create_arbitrary_spectral_information
     n = var['nIn']
-    step = 50e9 * (96 // n)
-    f_in = F0_IN + step * np.arange(n) + grid * step / 2       # spread over the band
+    step = 50e9 * int((band[1] - band[0] - 150e9) / 50e9 / n)
+    f_in = band[0] + 75e9 + step * np.arange(n) + grid * step / 2       # spread over the band
     shape = np.linspace(-2.0, 2.0, n) if var['ramp'] else np.zeros(n)
     w = 10 ** (shape / 10)
     p_in = w / w.sum() * 1e-3 * 10 ** (pin_raw_udb / 1e7)
     # out-of-band channels: far outside, or with their slot edge 0.5 GHz below f_min / 1 GHz above f_max
-    oob = [BAND[0] + 25e9 - 0.5e9, BAND[1] - 25e9 + 1e9] if var['edge'] else OOB
+    # (far outside: 0.6 THz beyond the band ends - for a narrow-band entry that is still inside the default amplifier band)
+    oob = [band[0] + 25e9 - 0.5e9, band[1] - 25e9 + 1e9] if var['edge'] else [band[0] - 0.6e12, band[1] + 0.6e12]
     f = np.concatenate([f_in, oob[:var['nOut']]])
     p = np.concatenate([p_in, np.full(var['nOut'], p_in.mean())])
     return create_arbitrary_spectral_information(frequency=f, pch=p, baud_rate=32e9, slot_width=50e9, tx_osnr=40,
@@ -143,7 +150,8 @@ def replay_history(js, idx, chk, stats, traces):
                 f"|{'after a saturating crossing' if earlier_sat else 'first or after unsaturated crossings'}"
         chk.case(f"{amp['id']}|g={st['gainTarget']}|t={st['tilt']}|v={var['inVoa']}/{var['outVoa']}/{var['nIn']}/{var['ramp']}"
                  f"|{[x['pinRaw'] for x in hist[:k + 1]]}", nontrivial=h['sat'] or h['regime'] != 'inrange')
-        si = load_si(h['pinRaw'], var, h['grid'])
+        band = (amp['fmin'] * 1e6, amp['fmax'] * 1e6)
+        si = load_si(h['pinRaw'], var, h['grid'], band)
         try:
             with Recording() as rec:
                 el(si)
@@ -152,7 +160,7 @@ def replay_history(js, idx, chk, stats, traces):
                 # NoMemory: the same load through a fresh amplifier with the same settings is the reference
                 ref = real_edfa(amp['id'], st['gainTarget'] / 1e6, st['tilt'] / 1e6, var['inVoa'] / 1e6, var['outVoa'] / 1e6)
                 with Recording() as rec2:
-                    ref(load_si(h['pinRaw'], var, h['grid']))
+                    ref(load_si(h['pinRaw'], var, h['grid'], band))
                 L.with_fresh_reference(e, L.edfa_event(rec2.events[-1], st['gainTarget'] / 1e6))
         except Exception as ex:                                          # noqa
             chk.violation(f'B2|{shape}|exception|{type(ex).__name__}', dict(case=js, step=k, exception=traceback.format_exc()[-1200:]))
@@ -529,7 +537,7 @@ def run(chk):
     if chk.tier == 'thorough':
         head = '\n'.join(ln for ln in cfg_text(2).splitlines() if not ln.startswith('INVARIANT'))
         L.require_witnesses(chk, 'MC_AmpLaw', head, ['ProbeSaturated', 'ProbePadded', 'ProbeExtended', 'ProbePaddedSat',
-                                                      'ProbeRelief'], 'c04-probe')
+                                                      'ProbeRelief', 'ProbeNegativeGain'], 'c04-probe')
     # ---- B2
     pins = 'MCPinTotsQuick' if chk.tier == 'quick' else 'MCPinTots'
     r2 = tlc.run('MC_AmpLaw', cfg_text=cfg_text(emit, emit=True, pins=pins), timeout=1800, tag='c04-emit')
